@@ -211,7 +211,7 @@ func run(x *h.Ctx, c Case) string {
 		return "harness: " + err.Error() + "\n" + src
 	}
 	var mu sync.Mutex
-	var log []opened
+	var log, staleLog []opened
 	var out, errOut bytes.Buffer
 	mk := func(noExec, noWrites, noReads bool, o, e *bytes.Buffer) *interp.Config {
 		cfg := &interp.Config{Stdin: strings.NewReader("stdin-line-1\nstdin-line-2\nstdin-line-3\n"), Output: o, Error: e, Argv0: "goawk", Vars: []string{"D", dir},
@@ -244,7 +244,22 @@ func run(x *h.Ctx, c Case) string {
 		it, _ := interp.New(prog)
 		var o2, e2 bytes.Buffer
 		restricted := c.How == "reused-after-restricted"
-		it.Execute(mk(restricted, restricted, restricted, &o2, &e2))
+		// the earlier run has the opposite OpenFile arrangement: its own recording function if this run has none, none if this run has one
+		firstCfg := mk(restricted, restricted, restricted, &o2, &e2)
+		if c.CustomOpen {
+			firstCfg.OpenFile = nil
+		} else {
+			firstCfg.OpenFile = func(name string, flag int, perm os.FileMode) (*os.File, error) {
+				mu.Lock()
+				staleLog = append(staleLog, opened{name, flag})
+				mu.Unlock()
+				return os.OpenFile(name, flag, perm)
+			}
+		}
+		it.Execute(firstCfg)
+		mu.Lock()
+		staleLog = nil
+		mu.Unlock()
 		for name := range snapshot(dir) {
 			os.Remove(filepath.Join(dir, name))
 		}
@@ -368,6 +383,12 @@ func run(x *h.Ctx, c Case) string {
 				}
 			}
 		}
+	}
+	mu.Lock()
+	nstale := len(staleLog)
+	mu.Unlock()
+	if nstale > 0 {
+		return fmt.Sprintf("files were opened through the OpenFile function of an EARLIER run on the same Interpreter (%v), not through this run's configuration\n%s", staleLog, describe())
 	}
 	// ---- custom OpenFile sees every file the program touches
 	if c.CustomOpen {
